@@ -73,7 +73,7 @@ def shape_key(case, results):
             return "trk-" + r.req.split()[1] + ("-invalid-choice" if "invalid-choice" in r.flags else "")
     return "trk"
 
-SOURCE_TIE = 'Source-level tie by proof (Tie/Inter, Tie/Kalman, Tie/SMetric, Tie/SortVoting, Props/C02s): SortMetric::metric (both gates) and SortVoting::winners as regenerated from the source: the cost matrix handed to kuhn_munkres is Assign.M thr W (own column = threshold, track columns = the quantised weights of the stream, first-appearance order), so every optimal solution of it decodes to a gated one-to-one association that is maximal among all partial associations; kuhn_munkres itself stays a contract checked per call.'
+SOURCE_TIE = 'Source-level tie by proof (Tie/Inter, Tie/Kalman, Tie/SMetric, Tie/SortVoting, Props/C02s): SortMetric::metric (both gates) and SortVoting::winners as regenerated from the source: the cost matrix handed to kuhn_munkres is Assign.M thr W (own column = threshold, track columns = the quantised weights of the stream, first-appearance order), so every optimal solution of it decodes to a gated one-to-one association that is maximal among all partial associations; kuhn_munkres itself stays a contract checked per call. Also by proof (Tie/Optimize, Tie/VoteParams): SortMetric::optimize with make_prediction and the state-to-box conversion (what a track keeps after an observation is one Kalman step on it, the stored box is the posterior position), and the parameters handed to SortVoting (the matrix threshold is the quantised configured threshold).'
 LEVEL_TEXT = LEVEL_TEXT + " " + SOURCE_TIE
 TRUSTED_BASE = TRUSTED_BASE + ["translator/kernels.py + rustexpr.py (reader of the Rust subset, per-function tables) for the functions named in SOURCE_TIE; generated definitions are proof obligations (Tie modules) on every run"]
 TECHNIQUE = TECHNIQUE + "; model regenerated from the source by a translator for the functions of SOURCE_TIE, tied by proof"
